@@ -535,13 +535,22 @@ theorem render_eq_lines (recs : List Rec) :
   | nil => rfl
   | cons r rs ih => simp [Rec.render, ih]
 
+theorem leading_blank {f : Hts.Spec.Fasta.File} (h : f.leadingBlanks.all (·.all isBlankByte) = true) :
+    ∀ l ∈ f.leadingBlanks, ∀ b ∈ l, isBlankByte b = true := by
+  simpa [List.all_eq_true] using h
+
 /-- `NewIndex` on a well-formed file returns exactly the true entries, in file order. -/
 theorem newIndex_render (f : Hts.Spec.Fasta.File) (h : f.WF) :
     newIndex f.render = .ok (f.entries.map ofEntry) := by
-  obtain ⟨_, hwf, hdist⟩ := h
-  unfold newIndex Hts.Spec.Fasta.File.render
-  rw [render_eq_lines, scan_eq_steps _ _ (recs_linesOK f.recs hwf)]
-  obtain ⟨st', h1, h2⟩ := steps_recs f.recs {} hwf hdist (by intro r _; rfl) (Or.inl rfl)
+  obtain ⟨_, hwf, hdist, hlead⟩ := h
+  have hlb := leading_blank hlead
+  unfold newIndex Hts.Spec.Fasta.File.render Hts.Spec.Fasta.File.leading
+  rw [render_eq_lines, ← List.flatten_append,
+    scan_eq_steps _ _ (linesOK_append _ _ (blank_term _ hlb) (recs_linesOK f.recs hwf)),
+    steps_append, steps_blanks _ _ hlb]
+  obtain ⟨st', h1, h2⟩ := steps_recs f.recs
+    ⟨[], {}, 0 + (blankLines f.leadingBlanks).flatten.length, false⟩ hwf hdist (by intro r _; rfl) (Or.inl rfl)
+  simp only at h1 ⊢
   rw [h1]
-  simp only [h2, Hts.Spec.Fasta.File.entries]
+  simp only [h2, Hts.Spec.Fasta.File.entries, Hts.Spec.Fasta.File.leading, Nat.zero_add]
   rfl
